@@ -172,6 +172,66 @@ pub fn run_ops(fsts: &[&[u8]], l: usize) -> Result<(u64, i64), String> {
     .and_then(|x| x)
 }
 
+/// (d) whole-FST calls that enumerate internally: the three predicates over
+/// two FSTs (raw and Set) and the Debug formatting of Set / Map into a sink
+/// that does not allocate. Returns (calls, [peak extra heap of predicates,
+/// of Debug]).
+pub fn run_calls(fsts: &[&[u8]], l: usize) -> Result<(u64, [i64; 2]), String> {
+    struct Null(u64);
+    impl std::fmt::Write for Null {
+        fn write_str(&mut self, s: &str) -> std::fmt::Result {
+            self.0 += s.len() as u64;
+            Ok(())
+        }
+    }
+    guard(|| {
+        let a = Fst::new(fsts[0]).unwrap();
+        let b = Fst::new(fsts[1 % fsts.len()]).unwrap();
+        let sa = Set::new(fsts[0]).unwrap();
+        let sb = Set::new(fsts[1 % fsts.len()]).unwrap();
+        let ma = Map::new(fsts[0]).unwrap();
+        let bound = op_bound(2, l);
+        let mut peaks = [0i64; 2];
+        let mut acc = 0u64;
+        let mut measure = |what: &str, slot: usize, bound: i64, f: &mut dyn FnMut() -> u64| -> Result<(), String> {
+            let x0 = alloc::live();
+            alloc::reset_peak();
+            acc += f();
+            let extra = alloc::peak() - x0;
+            if extra > bound {
+                return Err(format!("{}: peak extra heap {} bytes (bound {})", what, extra, bound));
+            }
+            if alloc::live() != x0 {
+                return Err(format!("{}: {} bytes still live after the call", what, alloc::live() - x0));
+            }
+            peaks[slot] = peaks[slot].max(extra);
+            Ok(())
+        };
+        measure("Fst::is_subset", 0, bound, &mut || a.is_subset(&b) as u64)?;
+        measure("Fst::is_superset", 0, bound, &mut || a.is_superset(&b) as u64)?;
+        measure("Fst::is_disjoint", 0, bound, &mut || a.is_disjoint(&b) as u64)?;
+        measure("Fst::is_subset (self)", 0, bound, &mut || a.is_subset(&a) as u64)?;
+        measure("Set::is_subset", 0, bound, &mut || sa.is_subset(&sb) as u64)?;
+        measure("Set::is_superset", 0, bound, &mut || sa.is_superset(&sb) as u64)?;
+        measure("Set::is_disjoint", 0, bound, &mut || sa.is_disjoint(&sb) as u64)?;
+        measure("Set::is_subset (range of self)", 0, bound, &mut || sa.is_subset(sa.range().ge(b"")) as u64)?;
+        let dbound = stream_bound(l) + 2048;
+        measure("Debug for Set", 1, dbound, &mut || {
+            let mut w = Null(0);
+            let _ = std::fmt::Write::write_fmt(&mut w, format_args!("{:?}", sa));
+            w.0
+        })?;
+        measure("Debug for Map", 1, dbound, &mut || {
+            let mut w = Null(0);
+            let _ = std::fmt::Write::write_fmt(&mut w, format_args!("{:?}", ma));
+            w.0
+        })?;
+        std::hint::black_box(acc);
+        Ok((10, peaks))
+    })
+    .and_then(|x| x)
+}
+
 /// Key i of the ladder of the given shape. Shape 0: 8-byte decimal keys
 /// (fan-out <= 10). Shape 1: 3-byte keys [i/2560, 0x20 + (i/40)%64, 0x30 + i%40]:
 /// a root of up to 256 transitions, below it distinct 64-wide nodes, below
@@ -226,6 +286,10 @@ pub fn replay(case: &Value) -> Result<String, String> {
         let k = case["k"].as_u64().unwrap_or(1) as usize;
         let shape = case["shape"].as_u64().unwrap_or(0);
         let (probes, bound) = ladder_probes(shape);
+        if k == 301 || k == 302 {
+            let (a, b) = (ladder_fst(n, 0, shape), ladder_fst(n, 1, shape));
+            return run_calls(&[&a[..], &b[..]], 8).map(|(c, pk)| format!("{} calls, peak extra heap {:?}", c, pk));
+        }
         if k == 0 {
             return run_zero_alloc(&ladder_fst(n, 0, shape), &probes).map(|c| format!("{} calls without allocation", c));
         }
@@ -263,7 +327,7 @@ pub fn replay(case: &Value) -> Result<String, String> {
 pub fn plan(tier: Tier) -> Plan {
     let mut p = Plan::new("C14", "exploration");
     let thorough = tier.thorough();
-    p.rule = "counting allocator, per-thread. (1) exhaustive in small scopes: for every FST of all subsets of U_ab3 and U_raw2 (values 3i+1), of the fan-out families and of the 256-byte label family: (a) Fst::new/Map::new/Set::new over borrowed bytes and every get/contains_key/contains of the probe closure perform ZERO allocations (allocation count); (b) stream(), every range (all kind pairs x bound keys of length <= 2; large sets <= 1) and three automaton searches: live heap after EVERY next() <= heap before construction + 4096 + 256*(L+2) + 4*(L+16); (c) union/intersection/difference/symmetric_difference over k = 2..4 FST-backed streams (the FST, its even- and odd-indexed halves, itself): live heap after every next() <= before + 256 + k*(stream bound + 2*max(L,64) + 512). (2) finite ladder (not exhaustive): FSTs of N = 1e4, 1e5 (thorough 1e6) 8-byte keys: full stream/range/search, k = 2..8 way operations over partially overlapping FSTs, and operations over 2-4 identical and over disjoint FSTs (long runs in which nothing is emitted): max extra heap identical (+-256 B) for all N; the same on a wide-node ladder (3-byte keys: root of up to 256 transitions, N/40 distinct non-root nodes of 64 and 40 transitions; N = 10240, 102400, 655360 - the last one a dense root in a file > 64 KiB), with zero-allocation open/lookups on each. non-trivial = traversals yielding >= 2 items".into();
+    p.rule = "counting allocator, per-thread. (1) exhaustive in small scopes: for every FST of all subsets of U_ab3 and U_raw2 (values 3i+1), of the fan-out families and of the 256-byte label family: (a) Fst::new/Map::new/Set::new over borrowed bytes and every get/contains_key/contains of the probe closure perform ZERO allocations (allocation count); (b) stream(), every range (all kind pairs x bound keys of length <= 2; large sets <= 1) and three automaton searches: live heap after EVERY next() <= heap before construction + 4096 + 256*(L+2) + 4*(L+16); (c) union/intersection/difference/symmetric_difference over k = 2..4 FST-backed streams (the FST, its even- and odd-indexed halves, itself): live heap after every next() <= before + 256 + k*(stream bound + 2*max(L,64) + 512). (2) finite ladder (not exhaustive): FSTs of N = 1e4, 1e5 (thorough 1e6) 8-byte keys: full stream/range/search, k = 2..8 way operations over partially overlapping FSTs, and operations over 2-4 identical and over disjoint FSTs (long runs in which nothing is emitted): max extra heap identical (+-256 B) for all N; the same on a wide-node ladder (3-byte keys: root of up to 256 transitions, N/40 distinct non-root nodes of 64 and 40 transitions; N = 10240, 102400, 655360 - the last one a dense root in a file > 64 KiB), with zero-allocation open/lookups on each; on both ladders also is_subset / is_superset / is_disjoint (raw and Set, also against a range stream) and the Debug formatting of Set and Map into a non-allocating sink: peak extra heap bounded and identical for all N, nothing live afterwards. non-trivial = traversals yielding >= 2 items".into();
     p.assumptions = vec![
         "'for all N' beyond the ladder is not decided; transient per-item allocations that are freed again do not violate the property as stated".into(),
         "memory of user-supplied streams is outside the property".into(),
@@ -375,6 +439,15 @@ pub fn plan(tier: Tier) -> Plan {
                 Ok((c, m)) => { st.evals += c; st.states += c; st.transitions += c; st.nontrivial += 1; st.count("ladder_points", 1); table.lock().unwrap().insert((sh + 1, n), m); }
                 Err(msg) => rep.violation(format!("ladder stream shape {} N={}", shape, n), msg, json!({"ladder_n": n, "k": 1, "shape": shape})),
             }
+            match run_calls(&[&fsts[0][..], &fsts[1][..]], 8) {
+                Ok((c, pk)) => {
+                    st.evals += c;
+                    st.count("ladder_points", 2);
+                    table.lock().unwrap().insert((sh + 301, n), pk[0]);
+                    table.lock().unwrap().insert((sh + 302, n), pk[1]);
+                }
+                Err(msg) => rep.violation(format!("ladder calls shape {} N={}", shape, n), msg, json!({"ladder_n": n, "k": 301, "shape": shape})),
+            }
             // inputs for which an operation emits nothing for long runs:
             // identical FSTs (symmetric difference of an even number, difference)
             // and disjoint FSTs (intersection)
@@ -406,7 +479,7 @@ pub fn plan(tier: Tier) -> Plan {
         let t = table.lock().unwrap();
         st.samples.push(json!({"ladder_max_extra_heap": t.iter().map(|((k, n), v)| json!({"shape": k / 1000, "k_streams": k % 1000, "N": n, "bytes": v})).collect::<Vec<_>>()}));
         for (shape, ns) in [(0usize, &ns2), (1, &ns_wide)] {
-            for k in (1..=8usize).chain([102, 103, 104, 202, 203]) {
+            for k in (1..=8usize).chain([102, 103, 104, 202, 203, 301, 302]) {
                 for w in ns.windows(2) {
                     if let (Some(a), Some(b)) = (t.get(&(shape * 1000 + k, w[0])), t.get(&(shape * 1000 + k, w[1]))) {
                         if (a - b).abs() > 256 {
